@@ -16,7 +16,7 @@ RULE = ("case = finite-automaton description (class enfa/nfa/dfa, <=5 states, <=
 ASSUMPTIONS = ["reference NFA semantics (vlib/ref_fa.py) is the textbook definition",
                "bounds sampled from {-1,0..5}; n=None only when the reference says the language is finite",
                "sizes bounded: <=5 states (random tier), exhaustive scopes as stated"]
-BUDGET = {"quick": 400, "thorough": 6000}
+BUDGET = {"quick": 1200, "thorough": 8000}
 WATCHDOG = 20
 EXHAUSTIVE_SCOPE = {
     "quick": "all 4096 epsilon-NFAs with 2 states over {a, eps} and every start/final marking, bounds 2,3",
